@@ -265,6 +265,7 @@ ROUTES = {
     "from-inverse-covariance": ("PCAVectorModel.init_from_covariance_matrix(inv(C), ..., is_inverse=True) - full rank only", "model.increment(B)", (1, 0)),
     "pcmodel-from-components": ("PCAModel.init_from_components(pca(X), mean PointCloud)", "model.increment([PointCloud])", (1, 0)),
     "pcmodel-from-covariance": ("PCAModel.init_from_covariance_matrix(C, mean PointCloud, n, centred)", "model.increment([PointCloud])", (1, 0)),
+    "ipca-eps": ("pca(X, centre)", "ipca(B, U, l, n, m_a=m, centred=c, eps=1e-10 * l[0]): the documented threshold given at the scale of the data", (1, 0)),
     "noinplace": ("PCAVectorModel(X, inplace=False) on the caller's own array", "model.increment(B, forgetting_factor=1.0)", (1, 0)),
 }
 ROUTE_DATA = ["gen", "zero", "lowrank", "zcol", "zmean"]
@@ -275,6 +276,7 @@ def route_exists(route, d, centred, kind, b):
     """fixed rule (never the seed): which (route, data letter, initial batch) combinations are defined."""
     if centred not in ROUTES[route][2]:
         return False
+    kind = kind.split("@")[0]
     if route == "ipca-infer" and centred and kind == "zero":
         return False  # documented: an all-zero m_a means 'not centred' when centred is left to be inferred
     if route in FULL_RANK_ROUTES:
@@ -332,6 +334,8 @@ class IpcaRoute(object):
             out = ipca(B, U, l, n, m_a=m)
         elif r == "ipca-positional":
             out = ipca(B, U, l, n, m, 1.0, 1e-10, c)
+        elif r == "ipca-eps":
+            out = ipca(B, U, l, n, m_a=m, centred=c, eps=1e-10 * float(l[0]))
         else:
             out = ipca(B, U, l, n, m_a=m, f=1.0, centred=c)
         for name, a, k in zip(("B", "U_a", "l_a", "m_a"), (B, U, l, m), keep):
@@ -372,6 +376,47 @@ def build_route(route, X0, centred, pc_shape):
     return IpcaRoute(route, X0, c)
 
 
+# ---------------------------------------------------------------------------------------------------
+# scale letters: an existing payload re-expressed at another legal magnitude, "<data letter>@<scale letter>".
+#   x1e6 / x1e-6 / x1e-9 : every value multiplied by the factor (conditioning unchanged)
+#   +1e6                  : a common offset 1e6 x the spread added to every sample (centred PCA / difference features only:
+#                           the uncentred second moment of such data is ill conditioned by construction)
+# The reference is computed in float64 from the scaled payload itself, every tolerance is relative to the magnitude of
+# that payload, and the equivariance clause compares with the definition on the UNscaled payload, scaled analytically:
+# mean -> s*mean (+t), eigenvalues / spectral sum -> s^2, projector unchanged, precision -> 1/s^2.
+# ---------------------------------------------------------------------------------------------------
+SCALES = {"x1e6": ("x", 1e6), "x1e-6": ("x", 1e-6), "x1e-9": ("x", 1e-9), "+1e6": ("+", 1e6)}
+
+
+def _offset(letter, d, uniform):
+    v = SCALES[letter][1]
+    return v * np.ones(d) if uniform else v * (1.0 + 0.5 * np.arange(d) / d)
+
+
+def scale_payload(X, letter, uniform=False):
+    """uniform: the same offset on every feature (GMRF: the difference features x_i - x_j are then offset free)."""
+    kind, v = SCALES[letter]
+    if kind == "x":
+        return X * v
+    return X + _offset(letter, X.shape[1], uniform)
+
+
+def scale_expectation(ref, letter, X_base_prefix, uniform=False):
+    """the definition on the unscaled prefix, carried to the scaled payload analytically."""
+    kind, v = SCALES[letter]
+    out = dict(ref)
+    if kind == "x":
+        out["mean"] = ref["mean"] * v
+        for key, power in (("eig", 2), ("spec", 2), ("prec", -2)):
+            if key in ref:
+                out[key] = ref[key] * v ** power
+    else:
+        shift = _offset(letter, X_base_prefix.shape[1], uniform)
+        if np.any(ref["mean"] != 0) or "prec" in ref:
+            out["mean"] = ref["mean"] + shift
+    return out
+
+
 def _svals_ok(M):
     s = np.linalg.svd(M, compute_uv=False)
     if s[0] == 0:
@@ -407,8 +452,13 @@ def _memo(fn):
 def pca_data(seed, d, n, kind, b):
     """n x d data matrix of letter `kind`; deterministic redraw until every prefix (centred and raw) has an
     unambiguous numerical rank."""
+    if "@" in kind:
+        base, letter = kind.split("@")
+        # the guard is invariant under a common factor; under a common offset the centred spectra are unchanged and
+        # only centred models are run
+        return scale_payload(np.array(pca_data(seed, d, n, base, b), copy=True), letter)
     for attempt in range(200):
-        r = rs(seed, "c11-pca", d, n, kind, b if kind in ("zero", "zmean") else 0, attempt)
+        r = rs(seed, "c11-pca", d, n, kind, b if kind in B_DEPENDENT else 0, attempt)
         if kind == "gen":
             k = min(n - 1, d)
             u, _ = np.linalg.qr(r.randn(n, n))
@@ -424,6 +474,15 @@ def pca_data(seed, d, n, kind, b):
             X = r.randn(n, 2).dot(r.randn(2, d)) * 1.5 + 3.0 * r.rand(d)
         elif kind == "int":
             X = r.randint(0, 16, size=(n, d)).astype(np.float64)
+        elif kind in ("samemean", "nearmean"):
+            # the increment that follows the first batch is the first batch mirrored at its mean: its mean equals the running
+            # mean to rounding (samemean) or differs from it by 1e-6 of the spread, inside the span (nearmean) - the
+            # mean-shift pseudo sample of ipca is (nearly) a zero row
+            X = r.randn(n, d) * (1.0 + np.arange(d)) * 0.8 + 3.0 * r.rand(d)
+            m0 = X[:b].mean(axis=0)
+            X[b : 2 * b] = 2.0 * m0 - X[:b]
+            if kind == "nearmean":
+                X[b : 2 * b] += 1e-6 * (X[0] - m0)
         elif kind == "zcol":
             # a feature that is exactly 0 in every sample (planar 3-d points, a masked pixel): its mean coordinate is exactly 0
             X = r.randn(n, d) * (1.0 + np.arange(d)) * 0.8 + 3.0 * r.rand(d)
@@ -465,6 +524,9 @@ def pca_definition(P, centred):
     return {"n": n, "mean": m, "eig": lam, "proj": C.T.dot(C), "spec": (C.T * lam).dot(C)}
 
 
+B_DEPENDENT = ("zero", "zmean", "samemean", "nearmean")  # letters whose payload is built around the initial batch size
+
+
 def _pc_shape(d):
     if d % 2 == 0:
         return (d // 2, 2)
@@ -490,6 +552,7 @@ GRAPHS = {
     "cycle4": ("U", 4, [(0, 1), (1, 2), (2, 3), (3, 0)], None),
     "star4": ("U", 4, [(0, 1), (0, 2), (0, 3)], None),
     "tree4": ("T", 4, [(0, 1), (0, 2), (1, 3)], 0),
+    "chain12": ("U", 12, [(i, i + 1) for i in range(11)], None),  # the large-size letter: 24 features, 11 edges
 }
 GRAPHS_QUICK = ["edgeless", "chain", "cycle", "star", "isolated", "tree", "digraph"]
 GRAPHS_THOROUGH = GRAPHS_QUICK + ["edgeless4", "chain4", "cycle4", "star4", "tree4"]
@@ -643,6 +706,24 @@ class C11(Check):
                             for route in ROUTES:
                                 if route_exists(route, d, centred, kind, b):
                                     out.append(("pca", d, n, centred, kind, "route:" + route, 1, b))
+        # scale letters (small subset: d = 5 and 10, n = 6): the plain route and the explicit module-level route at x1e6 and
+        # +1e6 (centred), the eps-given route also at x1e-6 and x1e-9 (see assumptions() for the model route there); the
+        # equal-mean letters; one large-size letter (200 features)
+        for d in (5, 10):
+            for centred in (1, 0):
+                for b in range(2, 6):
+                    for feed, letters in (("array", ["x1e6", "+1e6"]), ("route:ipca-explicit", ["x1e6", "+1e6"]), ("route:ipca-eps", ["x1e6", "x1e-6", "x1e-9", "+1e6"])):
+                        for letter in letters:
+                            if letter == "+1e6" and not centred:
+                                continue
+                            out.append(("pca", d, 6, centred, "gen@" + letter, feed, 1, b))
+                    if 2 * b <= 6:
+                        for kind in ("samemean", "nearmean"):
+                            out.append(("pca", d, 6, centred, kind, "array", 1, b))
+                            out.append(("pca", d, 6, centred, kind, "route:ipca-infer", 1, b))
+        for centred in (1, 0):
+            for b in range(2, 6):
+                out.append(("pca", 200, 6, centred, "gen", "array", 1, b))
         # argument forms: integer valued payload presented in every form of FORMS
         for n in [6] if self.tier == "quick" else [6, 8]:
             for d in ds:
@@ -686,6 +767,22 @@ class C11(Check):
                             if FORMS[form][1]:
                                 for b in range(GMRF_MIN_BATCH, n):
                                     out.append(("gmrf", g, mode, sparse, bias, 2, "form:" + form, n, b, 1))
+        # scale letters for the random field (edgeless and chain; the offset letter on difference features only) and the
+        # large-size letter (12 vertices)
+        for g in ("edgeless", "chain"):
+            modes = ["concatenation", "subtraction"] if GRAPHS[g][2] else ["concatenation"]
+            for mode in modes:
+                for sparse in (1, 0):
+                    for bias in (0, 1):
+                        for letter in SCALES:
+                            if letter == "+1e6" and not (GRAPHS[g][2] and mode == "subtraction"):
+                                continue
+                            for b in range(GMRF_MIN_BATCH, n):
+                                out.append(("gmrf", g, mode, sparse, bias, 2, "scale:" + letter, n, b, 1))
+        for mode in ("concatenation", "subtraction"):
+            for sparse in (1, 0):
+                for b in range(GMRF_MIN_BATCH, n):
+                    out.append(("gmrf", "chain12", mode, sparse, 0, 2, "array", n, b, 1))
         # the driver hands out consecutive chunks of roots: deal the roots, heaviest first, into 128 groups of equal
         # estimated cost so that no worker ends up with all the 1024-composition roots (order is a fixed function of the tier)
         def cost(r):
@@ -738,9 +835,11 @@ class C11(Check):
         from menpo.model import PCAModel, PCAVectorModel
 
         _, d, n, centred, kind, feed, merge, b = root
-        X = pca_data(self.seed, d, n, kind, b if kind in ("zero", "zmean") else 0)
-        st = {"fam": "pca", "root": root, "X": X, "n": n, "d": d, "centred": bool(centred), "feed": feed, "merge": merge, "consumed": b, "hist": (), "pc_shape": _pc_shape(d), "scale": max(1.0, float(np.abs(X).max()))}
+        X = pca_data(self.seed, d, n, kind, b if kind.split("@")[0] in B_DEPENDENT else 0)
+        st = {"fam": "pca", "root": root, "X": X, "n": n, "d": d, "centred": bool(centred), "feed": feed, "merge": merge, "consumed": b, "hist": (), "pc_shape": _pc_shape(d), "scale": float(np.abs(X).max())}
         st["tolx"] = 1e4 if feed.startswith("form:") and FORMS[feed[5:]][2] else 1.0
+        if kind.endswith("@+1e6"):
+            st["tolx"] = 100.0  # centring data that sit 1e6 spreads from the origin costs log10(1e6) digits: eps * offset / spread = 1e-10
         data, kw = self._feed_pca(st, X[:b], initial=True)
         cls = PCAModel if feed in ("pc", "pciter") else PCAVectorModel
         if feed.startswith("route:"):
@@ -755,7 +854,7 @@ class C11(Check):
         if feed.startswith("form:"):
             return self._feed_form(st, rows, initial)
         rows = np.array(rows, copy=True)
-        if feed == "array":
+        if feed == "array" or feed.startswith("scale:"):
             return rows, {}
         if feed == "list":
             return [r.copy() for r in rows], {}
@@ -772,8 +871,12 @@ class C11(Check):
         _, g, mode, sparse, bias, k, feed, n, b, merge = root
         nv = GRAPHS[g][1]
         X = gmrf_data(self.seed, nv, k, n, 1 if feed.startswith("form:") else 0)
-        st = {"fam": "gmrf", "root": root, "X": X, "n": n, "g": g, "nv": nv, "k": k, "mode": mode, "sparse": bool(sparse), "bias": bias, "feed": feed, "merge": merge, "consumed": b, "hist": (), "scale": max(1.0, float(np.abs(X).max()))}
+        if feed.startswith("scale:"):
+            X = scale_payload(np.array(X, copy=True), feed[6:], uniform=True)
+        st = {"fam": "gmrf", "root": root, "X": X, "n": n, "g": g, "nv": nv, "k": k, "mode": mode, "sparse": bool(sparse), "bias": bias, "feed": feed, "merge": merge, "consumed": b, "hist": (), "scale": float(np.abs(X).max())}
         st["tolx"] = 1e4 if feed.startswith("form:") and FORMS[feed[5:]][2] else 1.0
+        if feed == "scale:+1e6":
+            st["tolx"] = 100.0
         data, kw = self._feed_gmrf(st, X[:b], initial=True)
         cls = GMRFModel if feed in ("pc", "pciter") else GMRFVectorModel
         st["model"], st["error"] = _try(lambda: cls(data, make_graph(g), mode=mode, sparse=bool(sparse), bias=bias, dtype=np.float64, incremental=True, **kw))
@@ -960,11 +1063,16 @@ class C11(Check):
             fails += self._compare(st, o, batch, sc, "", "menpo batch model of the %d samples consumed" % c, op)
         fails += self._compare(st, o, ref, sc, "-vs-definition", "definition on the %d samples consumed" % c, op)
         fails += self._route_clauses(st, o, sc, op)
+        fails += self._scale_clause(st, o, sc, op)
         # outcome classes
         if st["fam"] == "pca":
             fam = "pca-inc"
             if zero_coord:
                 self.note("%s:running-mean-has-an-exactly-zero-coordinate" % fam)
+            if st["centred"] and np.abs(rows.mean(axis=0) - mean_before).max() <= 1e-5 * st["scale"] and np.ptp(rows, axis=0).max() > 1e-3 * np.ptp(st["X"], axis=0).max():
+                self.note("%s:increment-mean-equals-running-mean" % fam)  # to 1e-5 of the magnitude, although the samples vary
+            if st["d"] >= 200:
+                self.note("pca-size:200-features")
             if st["feed"].startswith("route:"):
                 self.note("pca-route:%s" % st["feed"][6:])
             self.note("%s:%s" % (fam, "prefix<=d(gram-path)" if c <= st["d"] else "prefix>d(covariance-path)"))
@@ -988,13 +1096,33 @@ class C11(Check):
         self.note("history:%s" % ("first-increment" if len(st["hist"]) == 1 else "later-increment"))
         return fails
 
+    def _scale_clause(self, st, o, sc, op):
+        """scale equivariance: the model of s*X (X + t) is the model of X carried over analytically."""
+        if st["fam"] == "pca":
+            kind = st["root"][4]
+            if "@" not in kind:
+                return []
+            base, letter = kind.split("@")
+            Xb = pca_data(self.seed, st["d"], st["n"], base, st["root"][7] if base in B_DEPENDENT else 0)
+            ref = pca_definition(Xb[: st["consumed"]], st["centred"])
+        else:
+            if not st["feed"].startswith("scale:"):
+                return []
+            letter = st["feed"][6:]
+            Xb = gmrf_data(self.seed, st["nv"], st["k"], st["n"], 0)
+            ref = gmrf_definition(Xb[: st["consumed"]], st["g"], st["k"], st["mode"], st["bias"])
+        exp = scale_expectation(ref, letter, Xb[: st["consumed"]], uniform=st["fam"] == "gmrf")
+        self.note("%s-scale:%s" % (st["fam"], letter))
+        return self._compare(st, o, exp, sc, "-scale-equivariance", "definition on the unscaled payload carried over by %s" % letter, op)
+
     def _route_clauses(self, st, o, sc, op):
         """route agreement: the same history through the plain route (constructor + increment method) gives the same
         model; a route must not write into what the caller handed over; method and property forms of the mean agree."""
         fails = []
         m = st["model"]
         where = self._where(st)
-        if st["fam"] == "pca" and st["feed"].startswith("route:"):
+        small = st["fam"] == "pca" and st["root"][4].endswith(("@x1e-6", "@x1e-9"))  # the plain route cannot be run there, see assumptions()
+        if st["fam"] == "pca" and st["feed"].startswith("route:") and not small:
             from menpo.model import PCAVectorModel
 
             b = st["root"][7]
@@ -1116,6 +1244,8 @@ class C11(Check):
             "gmrf-k:1",
             "gmrf-k:2",
         ]
+        need += ["pca-scale:%s" % k for k in SCALES] + ["gmrf-scale:%s" % k for k in SCALES] + ["pca-data:samemean", "pca-data:nearmean", "pca-size:200-features", "gmrf-graph:chain12"]
+        need += ["pca-inc:increment-mean-equals-running-mean"]
         need += ["pca-route:%s" % r for r in ROUTES] + ["pca-data:zcol", "pca-data:zmean", "pca-inc:running-mean-has-an-exactly-zero-coordinate", "pca-route-agreement:agrees"]
         need += ["mean-method-vs-property:pca", "mean-method-vs-property:gmrf"]
         need += ["pca-refusal:%s" % k for k in sorted(set(REFUSAL_KIND[r] for v in PCA_REFUSALS.values() for r in v))]
@@ -1151,6 +1281,7 @@ class C11(Check):
             "pca_d": ds,
             "pca_data_letters": PCA_DATA,
             "pca_feed_letters": PCA_FEED,
+            "scale_letters": {k: "%s %g" % v for k, v in SCALES.items()},
             "public_routes": {r: {"initial_batch": v[0], "increment": v[1], "centring": ["uncentred", "centred"][min(v[2]) :] if len(v[2]) == 2 else ["uncentred"]} for r, v in ROUTES.items()},
             "route_data_letters": ROUTE_DATA,
             "refused_call_letters": {"pca": PCA_REFUSALS, "gmrf": GMRF_REFUSALS, "kinds": REFUSAL_KIND},
@@ -1177,6 +1308,13 @@ class C11(Check):
             "public routes are those of ROUTES (module-level pca / pcacov / ipca with centring inferred, given by keyword or positionally, init_from_components / init_from_covariance_matrix of "
             "both model classes, inplace=False, forgetting_factor=1.0 given); the route `ipca-infer` is not run on the centred `zero` letter because ipca documents an all-zero m_a as "
             "'not centred' when `centred` is not passed; the inverse-covariance routes exist only where the first batch has full rank (d = 3)",
+            "scale letters: tolerances are relative to the magnitude of the (scaled) payload - mean: max|X|, eigenvalues: largest eigenvalue, precision: largest entry - and 100 x wider for the "
+            "+1e6 offset letter (eps * offset / spread = 1e-10 is the accuracy of centring such data); only well-conditioned configurations: the offset letter is run on centred PCA and on "
+            "difference features (GMRF subtraction mode, common offset) only",
+            "NOT letters (reported to the coordinator): (1) x1e-6 / x1e-9 on the model route - ipca() discards eigenvalues below the ABSOLUTE eps = 1e-10 (documented parameter, not reachable "
+            "through increment()) while pca() uses a relative limit: PCAVectorModel(1e-5 * X).increment(..) loses components, at 1e-6 * X increment raises ValueError (0 components), at 1e9 * X "
+            "it keeps a spurious component; those scales are run only through the route ipca-eps, which passes eps at the scale of the data.  (2) the offset letter for the GMRF in "
+            "concatenation mode / edgeless graphs - the running covariance update n m m^T + X^T X - (n + n') m' m'^T cancels: offset / spread = 1e3 gives a relative precision error of 1e-8, 1e6 gives 2e-3",
             "'random chunkings for larger n' of the quantifier are sampling and outside the technique; every composition of every n in scope is covered instead",
             "states reached by different chunkings of the same prefix are merged when their observations agree within a tenth of the tolerance (after their own step oracle passed); "
             "merge=0 roots and the thorough-tier confluence re-expansion do not rely on that abstraction",
